@@ -105,7 +105,15 @@ type Noise struct {
 	Comments        bool // comment lines and trailing comments
 	FullCallType    bool // full function type in calls
 	SplitAttrGroups bool // define attribute groups in two overlapping parts (LLVM merges repeated definitions)
-	Indent          string
+	// InlineMD: kinds of non-distinct metadata nodes ("" = tuple, "DISubrange", ...) that are written
+	// inline where another node refers to them (`elements: !{!DISubrange(count: 4)}`) instead of by number;
+	// their numbered definitions stay (LLVM uniques the copies with the definition).
+	InlineMD map[string]bool
+	// TypeAlias maps the spelling of a scalar type ("i32", "double") to a chain of alias names: the
+	// module text then starts with `%a1 = type i32`, `%a2 = type %a1`, ... and every use of the type is
+	// spelled with the last name of the chain (LLVM reads such non-struct aliases as the type itself).
+	TypeAlias map[string][]string
+	Indent    string
 }
 
 var noise Noise
@@ -143,8 +151,15 @@ func (t *Type) String() string {
 	case Void:
 		return "void"
 	case Int:
-		return fmt.Sprintf("i%d", t.Bits)
+		b := fmt.Sprintf("i%d", t.Bits)
+		if a := noise.TypeAlias[b]; len(a) > 0 {
+			return "%" + QuoteName(a[len(a)-1])
+		}
+		return b
 	case Float:
+		if a := noise.TypeAlias[t.FK]; len(a) > 0 {
+			return "%" + QuoteName(a[len(a)-1])
+		}
 		return t.FK
 	case Ptr:
 		if t.AddrSpace != 0 {
